@@ -4,6 +4,7 @@ A failing obligation means the code moved away from the model (Model.lean names 
 -/
 import GoZero.Extracted.C17
 import GoZero.C17.Model
+import GoZero.C17.Buf
 namespace GoZero.C17.Tie
 open GoZero.C17
 open GoZero.Extracted.C17
@@ -737,5 +738,117 @@ theorem tie_cLoadConfigJson : cLoadConfigJson =
 
 theorem tie_cLoadConfigYaml : cLoadConfigYaml =
     ["return LoadFromYamlBytes(content, v)", "call LoadFromYamlBytes(content, v)"] := by rfl
+
+/-! ### round 5: where the bytes of a conversion live; the typed data flow of the delegating entry points -/
+
+/-- `encodeToJSON` renders into `var buf bytes.Buffer`, a LOCAL of the call, with no defer: the returned bytes belong to
+the caller (`encodeSite = .freshLocal`, theorems `conversion_results_stable`, `load_reads_own_document`).  A buffer taken
+from package-level state (a pool: seeded C17-8) gives `some .pooled`, anything else `none`. -/
+theorem tie_encodeBufSite : siteOfFlow encodeBufFlow = some encodeSite := by decide
+
+/-- the record itself (the returned expression and the declaration it comes from). -/
+theorem tie_encodeBufFlow : encodeBufFlow =
+    [("return", "buf.Bytes()"), ("root", "buf"), ("root-scope", "local"), ("decl", "var"), ("type", "bytes.Buffer"),
+     ("defers", "0")] := by decide
+
+/-- `YamlToJson` / `TomlToJson` return what `encodeToJSON` returned (no copy in between, nothing kept). -/
+theorem tie_fwdEncoding :
+    fcallsOf fwdEYamlToJson = [⟨"yaml.Unmarshal", [.param 0, .other]⟩, ⟨"toStringKeyMap", [.other]⟩, ⟨"encodeToJSON", [.result 1]⟩] ∧
+    fcallsOf fwdETomlToJson = [⟨"toml.NewDecoder(bytes.NewReader(data)).Decode", [.other]⟩, ⟨"encodeToJSON", [.other]⟩] := by
+  decide
+
+/-- the data flow of the four delegating mapping entry points IS the flow the theorems
+`mapping_entry_points_all_option_lists` / `fwd_*_sem` speak about: content through the front end, the target as it is,
+the options SPREAD (`opts...`). -/
+theorem tie_fwdYamlBytes : fcallsOf Extracted.C17.fwdYamlBytes = GoZero.C17.fwdYamlBytes := by decide
+theorem tie_fwdTomlBytes : fcallsOf Extracted.C17.fwdTomlBytes = GoZero.C17.fwdTomlBytes := by decide
+theorem tie_fwdYamlReader : fcallsOf Extracted.C17.fwdYamlReader = GoZero.C17.fwdYamlReader := by decide
+theorem tie_fwdTomlReader : fcallsOf Extracted.C17.fwdTomlReader = GoZero.C17.fwdTomlReader := by decide
+theorem tie_fwdConfYaml : fcallsOf Extracted.C17.fwdConfYaml = GoZero.C17.fwdConfYaml := by decide
+theorem tie_fwdConfToml : fcallsOf Extracted.C17.fwdConfToml = GoZero.C17.fwdConfToml := by decide
+
+/-- SEMANTIC form, for ALL arguments and ALL callee behaviours: what `UnmarshalYamlBytes(content, v, opts...)` computes
+from the EXTRACTED flow is `UnmarshalJsonBytes(YamlToJson(content), v, opts...)`; likewise the other five. -/
+theorem tie_fwdMapping_sem {α : Type} (sem : String → List α → α) (content v dflt : α) (opts : List α) :
+    runFwd sem [content, v] opts dflt (fcallsOf Extracted.C17.fwdYamlBytes)
+      = sem "UnmarshalJsonBytes" ([sem "encoding.YamlToJson" [content], v] ++ opts) ∧
+    runFwd sem [content, v] opts dflt (fcallsOf Extracted.C17.fwdTomlBytes)
+      = sem "UnmarshalJsonBytes" ([sem "encoding.TomlToJson" [content], v] ++ opts) ∧
+    runFwd sem [content, v] opts dflt (fcallsOf Extracted.C17.fwdYamlReader)
+      = sem "UnmarshalYamlBytes" ([sem "io.ReadAll" [content], v] ++ opts) ∧
+    runFwd sem [content, v] opts dflt (fcallsOf Extracted.C17.fwdTomlReader)
+      = sem "UnmarshalTomlBytes" ([sem "io.ReadAll" [content], v] ++ opts) ∧
+    runFwd sem [content, v] opts dflt (fcallsOf Extracted.C17.fwdJsonBytes)
+      = sem "unmarshalJsonBytes" [content, v, sem "getJsonUnmarshaler" opts] ∧
+    runFwd sem [content, v] opts dflt (fcallsOf Extracted.C17.fwdJsonReader)
+      = sem "unmarshalJsonReader" [content, v, sem "getJsonUnmarshaler" opts] := by
+  refine ⟨?_, ?_, ?_, ?_, ?_, ?_⟩ <;>
+    simp [runFwd, runFwdAux, evalArgs, fcallsOf, fargOf, Extracted.C17.fwdYamlBytes, Extracted.C17.fwdTomlBytes,
+      Extracted.C17.fwdYamlReader, Extracted.C17.fwdTomlReader, Extracted.C17.fwdJsonBytes, Extracted.C17.fwdJsonReader]
+
+/-- conf: the converting loaders, the deprecated wrappers, `LoadConfig` / `MustLoad` (path, target and `opts...` go to
+`Load` unchanged). -/
+theorem tie_fwdConf_sem {α : Type} (sem : String → List α → α) (a v dflt : α) (opts : List α) :
+    runFwd sem [a, v] opts dflt (fcallsOf Extracted.C17.fwdConfYaml) = sem "LoadFromJsonBytes" [sem "encoding.YamlToJson" [a], v] ∧
+    runFwd sem [a, v] opts dflt (fcallsOf Extracted.C17.fwdConfToml) = sem "LoadFromJsonBytes" [sem "encoding.TomlToJson" [a], v] ∧
+    runFwd sem [a, v] opts dflt (fcallsOf Extracted.C17.fwdConfLoadConfig) = sem "Load" ([a, v] ++ opts) ∧
+    runFwd sem [a, v] opts dflt (fcallsOf Extracted.C17.fwdConfLoadConfigJson) = sem "LoadFromJsonBytes" [a, v] ∧
+    runFwd sem [a, v] opts dflt (fcallsOf Extracted.C17.fwdConfLoadConfigYaml) = sem "LoadFromYamlBytes" [a, v] := by
+  refine ⟨?_, ?_, ?_, ?_, ?_⟩ <;>
+    simp [runFwd, runFwdAux, evalArgs, fcallsOf, fargOf, Extracted.C17.fwdConfYaml, Extracted.C17.fwdConfToml,
+      Extracted.C17.fwdConfLoadConfig, Extracted.C17.fwdConfLoadConfigJson, Extracted.C17.fwdConfLoadConfigYaml]
+
+/-- `MustLoad` calls `Load(path, v, opts...)` first (then only the fatal log on an error). -/
+theorem tie_fwdMustLoad : (fcallsOf fwdConfMustLoad).head? = some ⟨"Load", [.param 0, .param 1, .spread 2]⟩ := by decide
+
+/-- `getJsonUnmarshaler` hands the caller's whole option list to `NewUnmarshaler`; the jsonx entry points hand their
+decoder to `unmarshalUseNumber` together with the caller's target. -/
+theorem tie_fwdJsonInternals :
+    fcallsOf fwdGetJsonUnmarshaler = [⟨"len", [.other]⟩, ⟨"NewUnmarshaler", [.other, .spread 0]⟩] ∧
+    fcallsOf fwdJsonMap = [⟨"getJsonUnmarshaler(opts...).Unmarshal", [.param 0, .param 1]⟩] ∧
+    fcallsOf fwdUnmJsonBytes = [⟨"jsonx.Unmarshal", [.param 0, .other]⟩, ⟨"unmarshaler.Unmarshal", [.other, .param 1]⟩] ∧
+    fcallsOf fwdUnmJsonReader = [⟨"jsonx.UnmarshalFromReader", [.param 0, .other]⟩, ⟨"unmarshaler.Unmarshal", [.other, .param 1]⟩] ∧
+    fcallsOf fwdXUseNumber = [⟨"decoder.UseNumber", []⟩, ⟨"decoder.Decode", [.param 1]⟩] ∧
+    (fcallsOf fwdXUnmarshal).take 3 = [⟨"bytes.NewReader", [.param 0]⟩, ⟨"json.NewDecoder", [.result 0]⟩, ⟨"unmarshalUseNumber", [.result 1, .param 1]⟩] ∧
+    (fcallsOf fwdXUnmarshalFromString).take 3 = [⟨"strings.NewReader", [.param 0]⟩, ⟨"json.NewDecoder", [.result 0]⟩, ⟨"unmarshalUseNumber", [.result 1, .param 1]⟩] ∧
+    (fcallsOf fwdXUnmarshalFromReader).take 3 = [⟨"io.TeeReader", [.param 0, .other]⟩, ⟨"json.NewDecoder", [.result 0]⟩, ⟨"unmarshalUseNumber", [.result 1, .param 1]⟩] := by
+  decide
+
+/-- the typed data flow of `conf.Load` (evaluation order; `o(&opt)` is the option loop): the file is read once; the
+extension of the SAME path, lower-cased, selects the loader; under `opt.env` the loader gets
+`[]byte(os.ExpandEnv(string(content)))`, otherwise `content` itself; the target `v` goes to the loader unchanged. -/
+theorem tie_fwdLoad : fcallsOf fwdConfLoad =
+    [⟨"os.ReadFile", [.param 0]⟩, ⟨"path.Ext", [.param 0]⟩, ⟨"strings.ToLower", [.result 1]⟩,
+     ⟨"fmt.Errorf", [.other, .param 0]⟩, ⟨"o", [.other]⟩,
+     ⟨"string", [.result 0]⟩, ⟨"os.ExpandEnv", [.result 5]⟩, ⟨"[]byte", [.result 6]⟩, ⟨"loader", [.result 7, .param 1]⟩,
+     ⟨"loader", [.result 0, .param 1]⟩, ⟨"validate", [.param 1]⟩] := by decide
+
+/-- SEMANTIC form (`loadContent`): for ALL arguments and callee behaviours, what the two `loader` calls receive. -/
+theorem tie_fwdLoad_sem {α : Type} (sem : String → List α → α) (file v dflt : α) (opts : List α) :
+    (runFwdAux sem [file, v] opts dflt [] (fcallsOf fwdConfLoad))[8]?
+      = some (sem "loader" [sem "[]byte" [sem "os.ExpandEnv" [sem "string" [sem "os.ReadFile" [file]]]], v]) ∧
+    (runFwdAux sem [file, v] opts dflt [] (fcallsOf fwdConfLoad))[9]?
+      = some (sem "loader" [sem "os.ReadFile" [file], v]) ∧
+    (runFwdAux sem [file, v] opts dflt [] (fcallsOf fwdConfLoad))[2]?
+      = some (sem "strings.ToLower" [sem "path.Ext" [file]]) := by
+  refine ⟨?_, ?_, ?_⟩ <;> simp [runFwdAux, evalArgs, fcallsOf, fargOf, fwdConfLoad]
+
+/-- `LoadFromJsonBytes` (`loadTreeWithO`): the info of the TARGET's type, the generic tree of the CONTENT, the tree
+lowered with that info, then `UnmarshalJsonMap(lowered, v, WithCanonicalKeyFunc(..))`, then `validate(v)`. -/
+theorem tie_fwdLoadJson : fcallsOf fwdConfLoadJson =
+    [⟨"reflect.TypeOf", [.param 1]⟩, ⟨"buildFieldsInfo", [.result 0, .other]⟩, ⟨"jsonx.Unmarshal", [.param 0, .other]⟩,
+     ⟨"toLowerCaseKeyMap", [.other, .result 1]⟩, ⟨"mapping.WithCanonicalKeyFunc", [.other]⟩,
+     ⟨"mapping.UnmarshalJsonMap", [.result 3, .param 1, .result 4]⟩, ⟨"validate", [.param 1]⟩] := by decide
+
+theorem tie_fwdLoadJson_sem {α : Type} (sem : String → List α → α) (content v dflt : α) :
+    (runFwdAux sem [content, v] [] dflt [] (fcallsOf fwdConfLoadJson))[5]?
+      = some (sem "mapping.UnmarshalJsonMap"
+          [sem "toLowerCaseKeyMap" [dflt, sem "buildFieldsInfo" [sem "reflect.TypeOf" [v], dflt]], v,
+           sem "mapping.WithCanonicalKeyFunc" [dflt]]) ∧
+    (runFwdAux sem [content, v] [] dflt [] (fcallsOf fwdConfLoadJson))[2]? = some (sem "jsonx.Unmarshal" [content, dflt]) := by
+  refine ⟨?_, ?_⟩ <;> simp [runFwdAux, evalArgs, fcallsOf, fargOf, fwdConfLoadJson]
+
+/-- `FillDefault(v)` = the package's default-filling unmarshaller on an EMPTY map literal and the caller's target. -/
+theorem tie_fwdFillDefault : fcallsOf fwdConfFillDefault = [⟨"fillDefaultUnmarshaler.Unmarshal", [.other, .param 0]⟩] := by decide
 
 end GoZero.C17.Tie
